@@ -39,6 +39,19 @@ PROPS = {
 }
 
 
+PRELOAD = [
+    "diskcache", "sqltrie", "pygtrie", "dictdiffer", "blake3", "pickletools", "sqlite3",
+    "fsspec.implementations.local", "fsspec.implementations.memory",
+    "dvc_objects.fs.local", "dvc_objects.fs.memory", "dvc_objects.fs.generic", "dvc_objects.db",
+    "dvc_data.hashfile.cache", "dvc_data.hashfile.state", "dvc_data.hashfile.build",
+    "dvc_data.hashfile.transfer", "dvc_data.hashfile.status", "dvc_data.hashfile.tree",
+    "dvc_data.hashfile.checkout", "dvc_data.hashfile.gc", "dvc_data.hashfile.db.local",
+    "dvc_data.hashfile.db.index", "dvc_data.hashfile.db.migrate", "dvc_data.hashfile._progress",
+    "dvc_data.index", "dvc_data.index.checkout", "dvc_data.index.push", "dvc_data.index.fetch",
+    "dvc_data.index.collect", "dvc_data.fs",
+]  # fmt: skip
+
+
 def engine_for(prop):
     return importlib.import_module(PROPS[prop])
 
@@ -215,6 +228,10 @@ class World:
 def _install_common(ctx):
     from . import executor
 
+    import importlib
+
+    for mod in PRELOAD:
+        importlib.import_module(mod)
     ctx.seam.install()
     executor.install(ctx.seam)
     import logging
